@@ -67,7 +67,7 @@ CLAIMED = {
         category="exploration",
         ref="DESIGN.md §5 C14",
         technique="deterministic simulation: one seeded script delivered through every transport configuration (argument, stdin, split, simulated terminal; ; vs newline; end of input at a command boundary), differential between deliveries plus lockstep check of parse results against generator-known meaning",
-        text="Transport half decided by simulation: all deliveries of a script must have identical meaning (accepted commands, rejected lines, pause snapshots, instruction counts, end, stdout, minimal-mode stderr). Grammar half sampled: commands in random documented spellings must parse to the generator-known meaning, lines broken in a known way must be rejected without effect, no delivery panics. The exhaustive short-string enumeration of the quantifier is not attempted.",
+        text="Transport half decided by simulation: all deliveries of a script must have identical meaning (accepted commands, rejected lines, pause snapshots, instruction counts, end, stdout, minimal-mode stderr). Grammar half sampled: commands in random documented spellings must parse to the generator-known meaning, lines broken in a known way must be rejected without effect, no delivery panics. One run in 40 is cross-checked through the shipped binary with a real pipe. The exhaustive short-string enumeration of the quantifier is not attempted.",
         note="Trusted: help.txt + parser doc comments as the grammar; Debug text of the real Command as observation; hooks. Known finding: `sudo`.",
     ),
     "C20": dict(
